@@ -757,6 +757,11 @@ class Evaluator:
                     ctx.sink_kind.setdefault('#touched', set()).add(ls)
             return (('call', name, f, argv, tuple(e['ga']), tr, e.get('loc')),
                     cat(pre, ['MUTCALL', name, f, [strip(a) for a in argv], e.get('loc'), tuple(e['ga'])]))
+        if not local and name not in ALLOC_NAMES and not e.get('unsafe') and _sized_constructor(e):
+            # a constructor / resizer of a heap container of an external crate that takes an integer: a sized allocation
+            # request whatever it is called (BytesMut::zeroed, BitVec::repeat, ...)
+            val = ('call', name, f, argv, tuple(e['ga']), tr, e.get('loc'))
+            return (val, cat(pre, ['ALLOC', name, f, [strip(a) for a in argv], e.get('loc'), tuple(e['ga']), False, 'generic']))
         if (name in OWN_NAMES or e.get('unsafe')) and not local:
             val = ('call', name, f, argv, tuple(e['ga']), tr, e.get('loc'))
             kind = 'ALLOC' if name in ALLOC_NAMES else 'OWN'
@@ -996,6 +1001,35 @@ ALLOC_NAMES = {'with_capacity', 'reserve', 'reserve_exact', 'try_reserve', 'try_
                'alloc', 'alloc_zeroed', 'realloc', 'set_len', 'with_capacity_in', 'extend_from_slice', 'extend_from_within', 'to_vec',
                'collect', 'extend', 'split_to', 'split_off', 'new_uninit_slice', 'new_zeroed_slice', 'new_uninit', 'truncate', 'try_from_vec',
                'from_exact_iter', 'push', 'insert', 'push_back', 'push_front', 'into_boxed_slice', 'shrink_to_fit'}
+
+
+HEAP_TYPES = ('alloc::vec::Vec<', 'alloc::string::String', 'alloc::collections::', 'bytes::bytes_mut::BytesMut', 'bytes::bytes::Bytes',
+              'bitvec::vec::BitVec<', 'bitvec::boxed::BitBox<', 'alloc::boxed::Box<[', 'alloc::rc::Rc<[', 'alloc::sync::Arc<[',
+              'std::collections::', 'arrayvec::')
+INT_TYS = ('usize', 'u32', 'u64', 'u128', 'u16')
+# queries and conversions that take an integer but allocate nothing
+NOT_ALLOCATING = {'get', 'get_mut', 'index', 'index_mut', 'remove', 'swap_remove', 'split_at', 'split_at_mut', 'truncate', 'drain', 'nth',
+                  'swap', 'contains', 'binary_search', 'starts_with', 'ends_with', 'from_utf8', 'from', 'into', 'len', 'capacity',
+                  'is_empty', 'advance', 'slice', 'chunks', 'windows', 'rotate_left', 'rotate_right', 'first', 'last', 'set', 'take',
+                  'skip', 'step_by', 'checked_add', 'checked_mul', 'saturating_add', 'saturating_mul', 'min', 'max', 'cmp', 'eq', 'ne',
+                  'lt', 'le', 'gt', 'ge', 'partial_cmp', 'clone', 'to_string', 'fmt'}
+
+
+def _sized_constructor(e):
+    """external call whose receiver / result is a heap container and that takes an integer argument"""
+    if (e.get('crate') or '') not in ('alloc', 'bytes', 'bitvec', 'std', 'arrayvec', 'generic_array'):
+        return False
+    if e.get('name') in NOT_ALLOCATING or e.get('trait'):
+        return False
+    rty = e.get('ty') or ''
+    inh = e.get('inherent') or ''
+    heap = any(h in rty for h in HEAP_TYPES) or any(inh.startswith(h.rstrip('<')) or h in inh for h in HEAP_TYPES)
+    if not heap:
+        return False
+    for a in e.get('args') or []:
+        if isinstance(a, dict) and (a.get('ty') in INT_TYS):
+            return True
+    return False
 
 
 def _is_mut_ref(a):
